@@ -1,5 +1,5 @@
 """Property -> rules.  Each entry: run(prog, tier) -> (obligations, floors, meta)."""
-from .rules import bounds, arith, index, numctor, cmp, jsonw, memo, strict, lookup, tls, imports, hashord, capi, tables, ops
+from .rules import bounds, arith, index, numctor, cmp, jsonw, memo, strict, lookup, tls, imports, hashord, capi, tables, ops, registry
 
 COMMON_TRUST = [
     "rustc nightly HIR/MIR construction, trait resolution and const evaluation",
@@ -133,10 +133,12 @@ def c20(prog, tier):
 
 
 def c09(prog, tier):
-    obs, floors, an = merge(numctor.run(prog), cmp.run(prog))
+    obs, floors, an = merge(numctor.run(prog), cmp.run(prog), registry.run(prog, C09_NAMES))
     meta = {
         "level": "other",
         "explanation": (
+            "(Math builtins: each of the 18 single-primitive functions resolves to the f64 method of the same name, so 'agrees with "
+            "the platform math library' holds by construction for those; their f64 result re-enters through Val::try_num.) "
             "Static decision of the structural clauses of C09: (1) every construction of NumValue is dominated by "
             "is_finite() on the same value, or is a lossless <=32-bit integer conversion, or a 64-bit integer conversion "
             "under both safe-integer guards; no transmute fabricates one (so NaN/inf cannot be held by Val::Num); builtin "
@@ -146,7 +148,7 @@ def c09(prog, tier):
             "(3) bitwise/shift arms range-check both operands and reject negative counts on the raw operand; / and % are "
             "dominated by the exact zero-divisor test. NOT decided: correct rounding, libm agreement of composite functions."),
         "rule": "R-NUMCTOR (MIR aggregate sites + dominating facts) and R-CMP (MIR callee identity + HIR match-arm tables)",
-        "rules": ["R-NUMCTOR", "R-CMP"],
+        "rules": ["R-NUMCTOR", "R-CMP", "R-REGISTRY"],
         "analysed": an,
         "decided": "finite-only construction; single numeric order/equality; operand range checks; zero-divisor guard",
         "not_decided": "IEEE rounding of + - * /; values returned by libm; shift results",
@@ -226,7 +228,7 @@ def c06(prog, tier):
 
 def c02(prog, tier):
     obs, floors, an = merge(lookup.run(prog), only(memo.run(prog), ("ObjValue::get_idx", "object-locals", "CachedUnbound")),
-                            only(tls.run(prog), ("run_assertions",)))
+                            only(tls.run(prog), ("run_assertions",)), registry.run(prog, ["objectRemoveKey", "objectHas", "objectHasAll", "objectHasEx"]))
     meta = {
         "level": "other",
         "explanation": (
@@ -270,6 +272,77 @@ def c07(prog, tier):
         "trusted_base": COMMON_TRUST,
         "assumptions": ["Path::canonicalize resolves symlinks and relative components (std contract)"],
     }
+    return obs, floors, meta
+
+
+C10_NAMES = ("sort uniq set setMember setUnion setInter setDiff member contains find count remove removeAt flattenArrays flattenDeepArray "
+             "foldl foldr map mapWithIndex filter filterMap flatMap join lines deepJoin any all sum avg minArray maxArray range repeat slice makeArray reverse").split()
+C11_NAMES = ("length substr split splitLimit splitLimitR strReplace findSubstr startsWith endsWith stripChars lstripChars rstripChars trim asciiUpper "
+             "asciiLower stringChars codepoint char equalsIgnoreCase isEmpty escapeStringJson escapeStringPython escapeStringBash escapeStringDollars "
+             "parseInt parseOctal parseHex parseJson parseYaml encodeUTF8 decodeUTF8 base64 base64Decode base64DecodeBytes md5 sha1 sha256 sha512 sha3 "
+             "format toString").split()
+C13_NAMES = ("objectFields objectFieldsAll objectValues objectValuesAll objectKeysValues objectKeysValuesAll objectHas objectHasAll objectHasEx "
+             "objectFieldsEx get mapWithKey mergePatch prune objectRemoveKey length type isString isNumber isBoolean isObject isArray isFunction "
+             "equals primitiveEquals assertEqual xor xnor").split()
+C09_NAMES = ("abs sign max min pow exp log log2 log10 exponent mantissa floor ceil sqrt sin cos tan asin acos atan atan2 round isEven isOdd "
+             "isInteger isDecimal clamp mod").split()
+
+
+def extras(prog, prefixes):
+    from .report import Floor
+    obs = [o for o in registry.check_extras(prog) if o.key.split(":", 1)[1].startswith(prefixes)]
+    return obs, [], {}
+
+
+def stdlib_meta(pid, decided_extra, an):
+    return {
+        "level": "other",
+        "explanation": (
+            "Static decision of a narrow, structural slice of %s (the results of the functions are values and are NOT decided). "
+            "Registry chain through the array literal of stdlib_uncached: every std name of the statement is registered exactly "
+            "once, the Rust builtin bound to it has the documented parameter names in the documented order (named-argument calls "
+            "depend on it), and -- where the definition is a single primitive or excludes one -- it resolves to that callee "
+            "(spec/stdlib.json, one row per function). %s" % (pid, decided_extra)),
+        "rule": "R-REGISTRY: HIR array-literal extraction of (name, builtin) pairs -> MIR arg names and resolved callees (+ generic args, constant args) vs spec/stdlib.json",
+        "rules": ["R-REGISTRY"],
+        "analysed": an,
+        "decided": "registration, documented signature, distinguishing callee; " + decided_extra,
+        "not_decided": "that any function returns what its definition gives (value property)",
+        "trusted_base": COMMON_TRUST + ["spec/stdlib.json transcribed from the Jsonnet stdlib documentation / std.jsonnet"],
+        "assumptions": [],
+    }
+
+
+def c10(prog, tier):
+    pred = file_is("jrsonnet-stdlib/src/arrays.rs", "jrsonnet-stdlib/src/sort.rs", "jrsonnet-stdlib/src/sets.rs", "jrsonnet-stdlib/src/keyf.rs")
+    obs, floors, an = merge(registry.run(prog, C10_NAMES), extras(prog, ("std.sort",)), only(cmp.run(prog), ("sort_identity", "sort_keyf", "evaluate_compare_op")),
+                            arith.run(prog, pred), index.run(prog, pred), only(bounds.run(prog), ("SliceArray", "RepeatedArray", "ReverseArray", "RangeArray")))
+    meta = stdlib_meta("C10", "Also: keyed sorts are stable sorts and every ordering goes through evaluate_compare_op / NumValue order (R-CMP); the two generic "
+                       "sort comparators are siblings; no unguarded arithmetic/index trap in arrays.rs, sort.rs, sets.rs (R-ARITH/R-INDEX); the views behind "
+                       "slice/repeat/reverse/range bounds-check exactly (R-BOUNDS).", an)
+    meta["rules"] += ["R-CMP", "R-ARITH", "R-INDEX", "R-BOUNDS"]
+    return obs, floors, meta
+
+
+def c11(prog, tier):
+    pred = file_is("jrsonnet-stdlib/src/strings.rs", "jrsonnet-stdlib/src/encoding.rs", "jrsonnet-stdlib/src/hash.rs", "jrsonnet-stdlib/src/parse.rs", "jrsonnet-stdlib/src/misc.rs")
+    obs, floors, an = merge(registry.run(prog, C11_NAMES), extras(prog, ("parse_nat",)), arith.run(prog, pred), index.run(prog, pred))
+    meta = stdlib_meta("C11", "Also: digests are computed by the named digest crate over as_bytes() of the argument; encode/decode pairs use the same engine; "
+                       "substr counts code points (chars().skip().take()); findSubstr does not use the non-overlapping match_indices; parse_nat accepts a digit "
+                       "only if digit < BASE; no unguarded arithmetic/index trap in the string/encoding/parse modules.", an)
+    meta["rules"] += ["R-ARITH", "R-INDEX"]
+    return obs, floors, meta
+
+
+def c13(prog, tier):
+    obs, floors, an = merge(registry.run(prog, C13_NAMES), extras(prog, ("std.get",)),
+                            only(hashord.run(prog), ("jrsonnet_evaluator::obj::", "<jrsonnet_evaluator::obj::")),
+                            only(lookup.run(prog), ("has_field", "field_visibility_idx", "has_field_include_hidden_idx", "equals:fields")),
+                            only(cmp.run(prog), ("primitive_equals",)))
+    meta = stdlib_meta("C13", "Also: field names come out of fields_ex sorted by content (R-HASHORD); objectHas/objectHasAll/objectHasEx/`in` select the visible / "
+                       "include-hidden walker as documented and both walkers follow the skip protocol (R-LOOKUP); objectRemoveKey has no visible-only shortcut; "
+                       "std.get tests visibility before it forces the field; equals compares visible field lists; primitiveEquals is exact.", an)
+    meta["rules"] += ["R-HASHORD", "R-LOOKUP", "R-CMP"]
     return obs, floors, meta
 
 
@@ -380,6 +453,9 @@ PROPS = {
     "C06": {"run": c06, "thorough_cfgs": ["default", "pegparser"]},
     "C02": {"run": c02, "thorough_cfgs": ["default", "experimental"]},
     "C07": {"run": c07, "thorough_cfgs": ["default"]},
+    "C10": {"run": c10, "thorough_cfgs": ["default", "experimental"]},
+    "C11": {"run": c11, "thorough_cfgs": ["default", "experimental"]},
+    "C13": {"run": c13, "thorough_cfgs": ["default", "experimental"]},
     "C15": {"run": c15, "thorough_cfgs": ["default", "capi-nodefault"]},
     "C16": {"run": c16, "thorough_cfgs": ["default", "experimental"]},
     "C03": {"run": c03, "thorough_cfgs": ["default", "experimental"]},
